@@ -44,7 +44,10 @@ type Spec struct {
 	Filters  []Filter  `json:"filters,omitempty"`
 	Syscalls []Syscall `json:"syscalls,omitempty"`
 	AllText  bool      `json:"s_all,omitempty"` // explicit "-S all"
-	Keys     []string  `json:"keys,omitempty"`
+	// AllLast: the explicit syscalls are followed by "all" ("-S open,close -S all"): the union is every syscall.
+	// ("all" FIRST and explicit ones after it is not generated: the library then keeps only the explicit ones.)
+	AllLast bool     `json:"s_all_last,omitempty"`
+	Keys    []string `json:"keys,omitempty"`
 }
 
 // Quote is POSIX single-quote quoting, written independently of shellquote.
@@ -98,7 +101,13 @@ func (s *Spec) Argv() []string {
 		for _, sc := range s.Syscalls {
 			names = append(names, sc.Text)
 		}
+		if s.AllLast && len(names)%2 == 0 {
+			names = append(names, "all") // "... ,all" inside the list
+		}
 		a = append(a, "-S", strings.Join(names, ","))
+		if s.AllLast && len(names)%2 == 1 && names[len(names)-1] != "all" {
+			a = append(a, "-S", "all") // or as a flag of its own
+		}
 	}
 	for _, k := range s.Keys {
 		a = append(a, "-k", k)
@@ -151,6 +160,9 @@ func (s *Spec) Rule() rule.Rule {
 	for _, sc := range s.Syscalls {
 		r.Syscalls = append(r.Syscalls, sc.Text)
 	}
+	if s.AllLast && len(s.Syscalls) > 0 {
+		r.Syscalls = append(r.Syscalls, "all")
+	}
 	return r
 }
 
@@ -179,9 +191,11 @@ func (s *Spec) Expected() *Expected {
 			}
 			e.Triples = append(e.Triples, t)
 		}
-		e.AllSyscalls = len(s.Syscalls) == 0
-		for _, sc := range s.Syscalls {
-			e.Syscalls = append(e.Syscalls, sc.Num)
+		e.AllSyscalls = len(s.Syscalls) == 0 || s.AllLast
+		if !e.AllSyscalls {
+			for _, sc := range s.Syscalls {
+				e.Syscalls = append(e.Syscalls, sc.Num)
+			}
 		}
 	}
 	if len(s.Keys) > 0 {
